@@ -932,9 +932,12 @@ func (fr *Frame) typeAssert(x *ssa.TypeAssert) {
 		ok = Not(Eq(a.S, IntLit(0)))
 		it := x.AssertedType.Underlying().(*types.Interface)
 		if it.NumMethods() > 0 {
-			impl := Fresh("implements", BoolS)
+			impl := implTerm(x.AssertedType, a.S)
+			if impl == nil {
+				impl = Fresh("implements", BoolS)
+			}
 			ok = And(ok, impl)
-			fr.u.note("interface-to-interface assertion: implementation relation abstracted")
+			fr.u.note("interface-to-interface assertion: the implementation relation is an uninterpreted predicate of the dynamic type (known for values that statically have the interface type)")
 		}
 		v := *a
 		v.T = x.AssertedType
